@@ -22,6 +22,7 @@ TotalSteps == FoldLeft(LAMBDA a, c : a + NSteps(c), 0, Cases)
 
 HistFails(c, s) ==
   CASE c.prop = "C02" -> C02StepFails(c, s)
+    [] c.prop = "C02H" -> C02HStepFails(c, s)
     [] c.prop = "C19" -> C19StepFails(c, s)
     [] c.prop = "C10" -> C10StepFails(c, s)
     [] c.prop = "C14" -> C14StepFails(c, s)
